@@ -296,6 +296,8 @@ def body(run: Run, replay):
                 run.violation(r["clause"], {"cfg": cfg, "seed": seed, "hist": h, "detail": r},
                               {"solver": cfg["solver"], "kind": cfg["kind"]})
     os.unlink(tmp.name)
+    from .drive_C08_reuse import reuse_part
+    reuse_part(run)
     run.extra["histories_in_model"] = len(states)
     run.extra["maximal_histories"] = len(leaves)
     run.extra["solver_configurations"] = len(cfgs)
